@@ -30,6 +30,24 @@ _maxs = [MAXS]
 SLOPPY = ['xq + 1', '5', "'s'", '!yq', '(xq)', 'lbl%d:', 'q%d = 3', 'q%d = 3', "systemLog('s%d') && 0", "probe('z%d', 1) * 2 - 1", '-(1 + 2)', '0 + mathAbs(1)']
 
 
+def keyword_named_block(rnd):
+    """Arguments and locals named like the constants null / true / false (also if): as an expression such a name is the constant, but as the
+    name of a called function it IS looked up - the only use of the argument / local is then that call."""
+    kw = rnd.choice(['null', 'true', 'false', 'if'])
+    other = rnd.choice(['vv', 'true', 'null']) if kw not in ('true', 'null') else 'vv'
+    n = rnd.randint(0, 99)
+    lines = ['function kwDouble%d(nn):' % n, '    return nn * 2', 'endfunction']
+    form = rnd.choice(['arg', 'arg', 'local', 'unused'])
+    if form == 'arg':
+        lines += ['function kwApply%d(%s, %s):' % (n, kw, other), '    return %s(%s)' % (kw, other if other == 'vv' else '3'), 'endfunction',
+                  'systemLog(kwApply%d(kwDouble%d, 21))' % (n, n)]
+    elif form == 'local':
+        lines += ['function kwApply%d(vv):' % n, '    %s = kwDouble%d' % (kw, n), '    return %s(vv)' % kw, 'endfunction', 'systemLog(kwApply%d(21))' % n]
+    else:
+        lines += ['function kwApply%d(%s, vv):' % (n, kw), '    return kwDouble%d(vv)' % n, 'endfunction', 'systemLog(kwApply%d(kwDouble%d, 21))' % (n, n)]
+    return '\n'.join(lines) + '\n'
+
+
 def scopes(model):
     yield ('global', None, model['statements'])
     for s in model['statements']:
@@ -69,16 +87,16 @@ def independent_analysis(model):
 
 
 _W = {
-    'unknown-f': re.compile(r'^Unknown label "(.+)" in function "(.+)" \(index (\d+)\)$'),
-    'unknown-g': re.compile(r'^Unknown global label "(.+)" \(index (\d+)\)$'),
-    'relabel-f': re.compile(r'^Redefinition of label "(.+)" in function "(.+)" \(index (\d+)\)$'),
-    'relabel-g': re.compile(r'^Redefinition of global label "(.+)" \(index (\d+)\)$'),
+    'unknown-f': re.compile(r'^Unknown label "(.*)" in function "(.+)" \(index (\d+)\)$'),
+    'unknown-g': re.compile(r'^Unknown global label "(.*)" \(index (\d+)\)$'),
+    'relabel-f': re.compile(r'^Redefinition of label "(.*)" in function "(.+)" \(index (\d+)\)$'),
+    'relabel-g': re.compile(r'^Redefinition of global label "(.*)" \(index (\d+)\)$'),
     'refunc': re.compile(r'^Redefinition of function "(.+)" \(index (\d+)\)$'),
     'duparg': re.compile(r'^Duplicate argument "(.+)" of function "(.+)" \(index (\d+)\)$'),
     'unused-var': re.compile(r'^Unused variable "(.+)" defined in function "(.+)" \(index (\d+)\)$'),
     'unused-arg': re.compile(r'^Unused argument "(.+)" of function "(.+)" \(index (\d+)\)$'),
-    'unused-label-f': re.compile(r'^Unused label "(.+)" in function "(.+)" \(index (\d+)\)$'),
-    'unused-label-g': re.compile(r'^Unused global label "(.+)" \(index (\d+)\)$'),
+    'unused-label-f': re.compile(r'^Unused label "(.*)" in function "(.+)" \(index (\d+)\)$'),
+    'unused-label-g': re.compile(r'^Unused global label "(.*)" \(index (\d+)\)$'),
     'pointless-f': re.compile(r'^Pointless statement in function "(.+)" \(index (\d+)\)$'),
     'pointless-g': re.compile(r'^Pointless global statement \(index (\d+)\)$'),
 }
@@ -334,6 +352,8 @@ def run_shard(ctx, spec):
             rnd = random.Random(seed)
             prog, src, globals0, pg = gen_program(rnd, size)
             text = sloppy_source(rnd, src)
+            if rnd.random() < 0.2:
+                text = keyword_named_block(rnd) + text
             globals0 = {k: v for k, v in globals0.items() if not callable(v)}
             model = impl.parse_valid(text, {'kind': 'source', 'source': text})
             try:
